@@ -71,7 +71,11 @@ def call_catch(interp, fv, args=(), kwargs=None):
 
 
 def T(b):
-    return z3.BoolVal(b) if isinstance(b, bool) else b
+    if isinstance(b, bool):
+        return z3.BoolVal(b)
+    if isinstance(b, Sym):
+        return b.t
+    return b
 
 
 def param(env, index):
